@@ -18,6 +18,7 @@ sys.path.insert(0, HERE)
 CHECKS = {
     "C01": "checks.c01",
     "C02": "checks.c02",
+    "C03": "checks.c03",
     "C05": "checks.c05",
     "C11": "checks.c11",
     "C09": "checks.c09",
